@@ -37,7 +37,7 @@ def run(ctx):
     thorough = not ctx.quick
     rnd = random.Random(ctx.seed + 7)
     n = 6000 if thorough else 500
-    progs = [add_async(rnd, T.gen_program(rnd, i, cls='A', feats=('send', 'send', 'tempo', 'spawn'))) for i in range(n)]
+    progs = [add_async(rnd, T.gen_program(rnd, i, cls='A', feats=('send', 'send', 'tempo', 'spawn', 'func'))) for i in range(n)]
     for p in progs:      # more sends
         for b in p['routines'].values():
             if rnd.random() < 0.7:
